@@ -66,7 +66,7 @@ impl Node {
     pub fn new_blank(index: u64) -> Self {
         Self {
             index,
-            hash: vec![0, 32],
+            hash: vec![0; 32],
             length: 0,
             parent: 0,
             data: None,
